@@ -243,9 +243,9 @@ Proof.
     + (* active: stage the helper *)
       apply Hdrop; [apply same_wt_tasks; reflexivity | reflexivity | cbn; auto |]. right.
       intros p [_ [Hw|Hw]];
-        change (tw_of (stage (rc_inc g u0) (HelperBody u0 (tw_of g u0))) u0) with (tw_of g u0) in Hw;
+        change (tw_of (add_log (stage (rc_inc g u0) (HelperBody u0 (tw_of g u0))) (EvHelp (gid g u0) (tw_of g u0))) u0) with (tw_of g u0) in Hw;
         [|rewrite Hw in Est; discriminate Est].
-      left. cbn [staged stage set_staged]. left. rewrite Hw. reflexivity.
+      left. cbn [staged stage set_staged add_log]. left. rewrite Hw. reflexivity.
     + (* suspended *) apply (keep_same g ls); auto using same_wt_refl. rewrite Ha, Es, Hso. cbn. auto.
     + (* pending_boost *) apply (keep_same g ls); auto using same_wt_refl. rewrite Ha, Es, Hso. cbn. auto.
   - (* SCas *)
@@ -346,7 +346,7 @@ Proof.
     + assert (Hsw : same_wt g (set_todo g t (UserBody r))) by (eapply same_wt_set_todo_user; eauto).
       assert (Hsw' : same_wt g (self_ref (set_todo g t (UserBody r)) t)).
       { eapply same_wt_trans; [exact Hsw | apply same_wt_tasks; reflexivity]. }
-      destruct ac as [| | | |b now|u]; cbn [fst snd].
+      destruct ac as [| | | |b now|u|v]; cbn [fst snd].
       * apply (keep_same g ls); auto. rewrite Ha. cbn. tauto.
       * apply (keep_same g ls); auto. rewrite Ha. cbn. tauto.
       * apply (keep_same g ls); auto. rewrite Ha. cbn. tauto.
@@ -356,6 +356,7 @@ Proof.
       * apply spawn_W1 with (g := g); auto.
         -- intros x Hx. rewrite tw_of_set_todo. apply (HH x Hx).
         -- rewrite Ha. cbn. tauto.
+      * apply (keep_same g ls); auto. rewrite Ha. cbn. tauto.
       * apply (keep_same g ls); auto. rewrite Ha. cbn. tauto.
     + (* helper: set_active_state *)
       set (g1 := set_todo g t (HelperRun u)).
@@ -426,7 +427,7 @@ Proof.
     2-5: match goal with |- context [sub_step ?gg ?s] =>
            assert (Hs := sub_step_W1 gg ls a _ HI Ha I HW); cbn [sub_of with_sub] in Hs;
            destruct (sub_step gg s) as [g' s']; exact Hs end.
-    destruct acts as [|[| | | |b now|u] r]; cbn [fst snd];
+    destruct acts as [|[| | | |b now|u|v] r]; cbn [fst snd];
       try (apply (keep_same g ls); auto using same_wt_refl; rewrite Ha; cbn; tauto).
     apply spawn_W1 with (g := g); auto using same_wt_refl. rewrite Ha. cbn. tauto.
 Qed.
